@@ -354,6 +354,50 @@ fn stream_complete(key: &StreamKey, v: &View) -> Result<bool, String> {
     }
 }
 
+/// Latest instant at which the endpoint's own idle timer can legitimately still be armed:
+/// it is (re)armed when a packet is processed and at the first ack-eliciting transmission after
+/// that, for max(negotiated idle timeout, 3 x PTO) with the PTO (including backoff and the
+/// peer's max_ack_delay) of that moment. None when the side is closed / unknown / has no timeout.
+pub fn idle_deadline_ns(v: &View, idx: u32, role: Role) -> Option<u64> {
+    let o = v.out;
+    let side = v.side(idx, role)?;
+    if v.closed_event(side).is_some() {
+        return None;
+    }
+    let own = match role {
+        Role::Client => o.plan.cfg.client.limits.idle_timeout_ms,
+        Role::Server => o.plan.cfg.server.limits.idle_timeout_ms,
+    };
+    let peer = v.peer_tp(idx, role).map(|p| p.max_idle_timeout_ms).unwrap_or(0);
+    let idle_ms = match (own, peer) {
+        (0, 0) => return Some(u64::MAX / 4), // no idle timeout negotiated at all
+        (0, x) | (x, 0) => x,
+        (a, b) => a.min(b),
+    };
+    let last_rx = o.obs.rx.iter().filter(|r| r.ep == side.ep && r.conn == side.conn).map(|r| r.t_ns).max()?;
+    // first ack-eliciting transmission after the last processed packet
+    let first_tx_after = o
+        .obs
+        .tx
+        .iter()
+        .enumerate()
+        .filter(|(_, t)| t.ep == side.ep && t.conn == side.conn && t.t_ns >= last_rx)
+        .filter(|(i, _)| v.tx_frames[*i].as_ref().map_or(true, |f| f.iter().any(|f| !matches!(f, Frame::Ack { .. } | Frame::Padding { .. } | Frame::ConnectionClose { .. }))))
+        .map(|(_, t)| t.t_ns)
+        .min()
+        .unwrap_or(last_rx);
+    let mut deadline = last_rx + idle_ms * 1_000_000;
+    for e in o.obs.evs.iter().filter(|e| e.ep == side.ep && e.conn == side.conn && e.t_ns >= last_rx && e.t_ns <= first_tx_after) {
+        if let Ev::Metrics { smoothed_us, var_us, max_ack_delay_us, pto_count, .. } = &e.ev {
+            let base = smoothed_us + (4 * var_us).max(1000) + max_ack_delay_us;
+            let pto_us = base.saturating_mul(1u64 << (*pto_count).min(40));
+            let d = e.t_ns + (idle_ms * 1_000_000).max(3 * pto_us.saturating_mul(1000));
+            deadline = deadline.max(d);
+        }
+    }
+    Some(deadline)
+}
+
 pub fn c02(v: &View) -> Vec<Violation> {
     let mut out = vec![];
     let o = v.out;
@@ -363,7 +407,25 @@ pub fn c02(v: &View) -> Vec<Violation> {
     // the harness budget (slow workload): that is not a hang
     let cap_ns = o.plan.time_cap_us.saturating_mul(1000);
     let still_progressing = cap_ns.saturating_sub(o.app.last_progress_ns) < 200_000_000_000;
-    if !o.app.capped_tasks.is_empty() && !still_progressing {
+    // a parked task whose connection still has its idle timer legitimately armed beyond the cap
+    // will be released by that timer: s2n-quic's effective idle timeout is max(negotiated,
+    // 3 x current PTO) where the current PTO includes the exponential backoff, so after a long
+    // blackhole during the handshake the deadline can lie hours ahead
+    let all_excused = !o.app.capped_tasks.is_empty()
+        && o.app.capped_tasks.iter().all(|name| {
+            let mut it = name.split('/');
+            let idx = it.next().and_then(|c| c.strip_prefix('c')).and_then(|c| c.parse::<u32>().ok());
+            let role = match it.next() {
+                Some("Client") => Some(Role::Client),
+                Some("Server") => Some(Role::Server),
+                _ => None,
+            };
+            match (idx, role) {
+                (Some(idx), Some(role)) => idle_deadline_ns(v, idx, role).map_or(false, |d| d + 1_000_000_000 >= cap_ns),
+                _ => false,
+            }
+        });
+    if !o.app.capped_tasks.is_empty() && !still_progressing && !all_excused {
         let mut pend: Vec<String> =
             o.app.pending_ops.values().map(|p| format!("{}:{}@{}ms", p.who, p.what, p.t_begin_ns / 1_000_000)).collect();
         pend.sort();
